@@ -79,8 +79,8 @@ def generate(rng: random.Random, tier: str) -> dict:
         msgs.append(m)
     pushes = []
     for j in range(rng.choice([0, 0, 1, 2, 3])):
-        pushes.append({"t": rng.randrange(0, 600), "kind": rng.choice(["notification", "notification", "request", "dataonly_notification"]),
-                       "text": rng.choice(TEXTS), "j": j})
+        pushes.append({"t": rng.randrange(0, 600), "kind": rng.choice(["notification", "notification", "request", "dataonly_notification", "request_reusing_id"]),
+                       "text": rng.choice(TEXTS), "j": j, "reuse": rng.randrange(0, 4)})
     pushes.sort(key=lambda p: p["t"])
     chunk = rng.choice([None, None, {"n": 1}, {"n": 3}, {"n": 7}, {"n": 16}, {"split": "utf8"}, {"split": "crlf"}, {"split": "data_prefix"}])
     death = None
@@ -234,8 +234,15 @@ def execute(scn: dict) -> dict:
                 sim.at(sim.now() + ticks(est["announce_at"]), announce, tie=0)
                 sim.at(sim.now() + timeout / 2, keepalive, tie=2)
                 for p in scn["pushes"]:
-                    obj = ({"jsonrpc": "2.0", "method": "notifications/message", "params": {"data": p["text"], "j": p["j"]}} if p["kind"] != "request"
-                           else {"jsonrpc": "2.0", "id": f"srv-{p['j']}", "method": "roots/list", "params": {"j": p["j"]}})
+                    if p["kind"] == "request_reusing_id":
+                        # server-initiated request whose id happens to equal the id of one of the client's own (maybe failed, maybe answered) requests
+                        cand = [m_.get("id") for m_ in scn["msgs"] if not m_["notif"]]
+                        rid_ = cand[p.get("reuse", 0) % len(cand)] if cand else f"srv-{p['j']}"
+                        obj = {"jsonrpc": "2.0", "id": rid_, "method": "ping", "params": {"j": p["j"], "reused": True}}
+                    elif p["kind"] == "request":
+                        obj = {"jsonrpc": "2.0", "id": f"srv-{p['j']}", "method": "roots/list", "params": {"j": p["j"]}}
+                    else:
+                        obj = {"jsonrpc": "2.0", "method": "notifications/message", "params": {"data": p["text"], "j": p["j"]}}
                     sim.at(sim.now() + ticks(est["announce_at"]) + ticks(p["t"]) + ticks(1), push_bytes,
                            _sse_event(obj, dataonly=p["kind"] == "dataonly_notification"), "push", obj, tie=0)
                 if scn["death"]:
